@@ -6,6 +6,7 @@
   The tie to src/Numerics.cpp is the correspondence run.
 -/
 import LpProofs.C02.Lemmas
+import LpProofs.C02.Sqrt
 namespace Lp.C02
 
 /-! ## The loop -/
@@ -359,6 +360,67 @@ theorem findRoot_linear_exact (sq : Rat → Rat) (hsq : ∀ t : Rat, sq (t * t) 
   have hz : m * (-q / m) + q = 0 := by field_simp; ring
   simp only [hz, if_true]
   and_intros <;> first | trivial | rfl
+
+/-! ## The driver's square root is an instance of the hypotheses
+
+  `Driver/C02.lean` runs `findRootR fn.eval sqrtRat (rndK 200) …`.  `sqrtRat` (LpModel/C02.lean) returns the
+  exact root when numerator and denominator are perfect squares and otherwise `(⌊√⌊y·4^k⌋⌋ + 1)/2^k`, i.e. it
+  rounds UP (never to nearest), so `SqOK` holds of it, and it is exact on squares.  The theorems above therefore
+  apply to the very `sq` the driver passes (they are about exact arithmetic, `rnd = id`; the driver's
+  `rnd = rndK 200` of the iterate stays a correspondence matter). -/
+
+/-- **`SqOK` holds of the driver's square root** -/
+theorem sqrtRat_sqOK : SqOK sqrtRat := sqrtRat_SqOK
+
+/-- **the driver's square root is exact on squares** (hypothesis of `findRoot_linear_exact`) -/
+theorem sqrtRat_sq_exact (t : Rat) : sqrtRat (t * t) = |t| := sqrtRat_exact_on_squares t
+
+/-- it rounds strictly up whenever it is not exact (scaling-independent statement of the rounded branch) -/
+theorem sqrtRat_round_up (y : Rat) (hy : 0 < y) (k : Int) :
+    y < ((Nat.sqrt (y * Lp.pow2 (2 * k)).floor.toNat + 1 : Nat) : Rat) / Lp.pow2 k *
+        (((Nat.sqrt (y * Lp.pow2 (2 * k)).floor.toNat + 1 : Nat) : Rat) / Lp.pow2 k) :=
+  (sqrt_round_branch y hy k).2
+
+example : sqrtRat (9 / 4) = 3 / 2 := by
+  rw [show (9 / 4 : Rat) = (3 / 2) * (3 / 2) by norm_num, sqrtRat_sq_exact, abs_of_pos (by norm_num)]
+
+example : (0 : Rat) < sqrtRat 2 ∧ (2 : Rat) ≤ sqrtRat 2 * sqrtRat 2 := sqrtRat_sqOK 2 (by norm_num)
+
+/-- the theorems instantiated at the driver's square root -/
+theorem ridder_invariant_driver (f : Rat → Option Rat) (xl xr acc : Rat) :
+    (∀ (i : Nat) (h : Head), (findRoot f sqrtRat xl xr acc).heads[i]? = some h →
+        f h.x1 = some h.f1 ∧ f h.x2 = some h.f2 ∧ h.f1 * h.f2 < 0 ∧
+        min xl xr ≤ h.x1 ∧ h.x1 ≤ max xl xr ∧ min xl xr ≤ h.x2 ∧ h.x2 ≤ max xl xr ∧
+        |h.x2 - h.x1| ≤ |xr - xl| / 2 ^ i) ∧
+    (findRoot f sqrtRat xl xr acc).out ≠ .errStuck := ridder_invariant f sqrtRat sqrtRat_SqOK xl xr acc
+
+theorem findRoot_accuracy_driver (f : Rat → Option Rat) (xl xr acc r : Rat)
+    (hret : (findRoot f sqrtRat xl xr acc).out = .root r) :
+    min xl xr ≤ r ∧ r ≤ max xl xr ∧ (f r = some 0 ∨ Witness f (min xl xr) (max xl xr) acc true r) :=
+  findRoot_accuracy f sqrtRat sqrtRat_SqOK xl xr acc r hret
+
+theorem findRoot_maxiter_bound_driver (f : Rat → Option Rat) (xl xr acc r : Rat)
+    (hret : (findRoot f sqrtRat xl xr acc).out = .maxIter r) :
+    Witness f (min xl xr) (max xl xr) (|xr - xl| / 2 ^ 50) false r :=
+  findRoot_maxiter_bound f sqrtRat sqrtRat_SqOK xl xr acc r hret
+
+theorem findRoot_sign_change_returns_driver (f : Rat → Option Rat) (xl xr acc fl fr : Rat)
+    (hl : f (min xl xr) = some fl) (hr : f (max xl xr) = some fr) (h : fl * fr ≤ 0) :
+    (∃ r, (findRoot f sqrtRat xl xr acc).out = .root r) ∨ (∃ r, (findRoot f sqrtRat xl xr acc).out = .maxIter r) ∨
+      (findRoot f sqrtRat xl xr acc).out = .nanInside :=
+  findRoot_sign_change_returns f sqrtRat sqrtRat_SqOK xl xr acc fl fr hl hr h
+
+theorem findRoot_linear_exact_driver (m q xl xr acc : Rat) (hm : m ≠ 0)
+    (hsc : (m * min xl xr + q) * (m * max xl xr + q) < 0) :
+    (findRoot (fun x => some (m * x + q)) sqrtRat xl xr acc).out = .root (-q / m) ∧
+    (findRoot (fun x => some (m * x + q)) sqrtRat xl xr acc).evals
+      = [min xl xr, max xl xr, (min xl xr + max xl xr) / 2, -q / m] :=
+  findRoot_linear_exact sqrtRat sqrtRat_exact_on_squares m q xl xr acc hm hsc
+
+-- non-vacuity: `2x − 1` on `[0, 2]` with the driver's square root
+example : (findRoot (fun x => some (2 * x + -1)) sqrtRat 0 2 (1 / 1000)).out = .root (1 / 2) := by
+  have h := (findRoot_linear_exact_driver 2 (-1) 0 2 (1 / 1000) (by norm_num) (by norm_num)).1
+  rw [h]; norm_num
 
 /-! ## Non-vacuity -/
 
